@@ -267,6 +267,7 @@ std::string runSingletonOnce(const SingCase &c) {
   std::vector<Slot> slots(K);
   const SingRound *cur = nullptr;
   int curTag = 0;
+  size_t curRound = 0;
   bool quit = false;
 
   placementHint(c.cpuBase);
@@ -280,7 +281,13 @@ std::string runSingletonOnce(const SingCase &c) {
       const uint32_t ctorUs = r.ctorUs;
       spinIters(r.spin[t]);
       gEntered.fetch_add(1, std::memory_order_relaxed);
-      Probe &p = Probe::instance(tag, ctorUs);
+      // instance() is a member template: callers that pass their arguments in different forms use different
+      // instantiations of it. In every second round the threads mix three forms (lvalues, temporaries, wider types);
+      // the contract - one object, everybody gets it - does not depend on how the first caller spelled its arguments.
+      const int form = (curRound & 1) ? static_cast<int>((t + curRound) % 3) : 0;
+      Probe &p = form == 0 ? Probe::instance(tag, ctorUs)
+                 : form == 1 ? Probe::instance(int(tag), uint32_t(ctorUs))
+                             : Probe::instance(static_cast<long>(tag), static_cast<unsigned long>(ctorUs));
       Slot &s = slots[t];
       s.first = &p;
       s.tag = p.tag();
@@ -308,6 +315,8 @@ std::string runSingletonOnce(const SingCase &c) {
     std::string where = "round " + std::to_string(ri) + ": ";
     cur = &r;
     curTag = static_cast<int>(1000 + ri);
+    curRound = ri;
+    if ((ri & 1) && K >= 2) st.cls("singleton.mixed_call_forms");
     gEntered.store(0, std::memory_order_relaxed);
     gInsideAtCtorEnd.store(0, std::memory_order_relaxed);
     const uint64_t ctors0 = gCtors.load(), dtors0 = gDtors.load();
